@@ -105,6 +105,15 @@ pub fn new(parameters: &RawParameters, ctx: &dyn Context) -> Result<Op, Error> {
         }
     }
 
+    // Deflections are slopes of a geoid: the first band of a datum shift or
+    // deformation grid is something else
+    if params.grids.iter().any(|g| g.bands() != 1) {
+        return Err(Error::Unsupported(format!(
+            "deflection: not geoid grids in '{}'",
+            params.texts("grids")?.join(",")
+        )));
+    }
+
     let fwd = InnerOp(fwd);
     let descriptor = OpDescriptor::new(def, fwd, None);
     let steps = Vec::new();
